@@ -103,7 +103,7 @@ class TransferManager(BaseManager):
         self._ticket_generator = ticket_generator()
 
         self._transfers: list[Transfer] = []
-        self._file_connection_futures: dict[int, asyncio.Future] = {}
+        self._file_connection_futures: dict[tuple[str, int], asyncio.Future] = {}
         self._progress_reporting_task: BackgroundTask = BackgroundTask(
             interval=self._settings.transfers.report_interval,
             task_coro=self._progress_reporting_job,
@@ -817,9 +817,11 @@ class TransferManager(BaseManager):
             await transfer.state.queue()
             return
 
-        # Already create a future for the incoming connection
+        # Already create a future for the incoming connection. The ticket is
+        # chosen by the uploader: different uploaders can use the same ticket at
+        # the same time
         file_connection_future: asyncio.Future = asyncio.Future()
-        self._file_connection_futures[request.ticket] = file_connection_future
+        self._file_connection_futures[(transfer.username, request.ticket)] = file_connection_future
 
         try:
             async with atimeout(60):
@@ -1279,7 +1281,7 @@ class TransferManager(BaseManager):
                 return
 
             try:
-                self._file_connection_futures[ticket].set_result(connection)
+                self._file_connection_futures[(connection.username, ticket)].set_result(connection)  # type: ignore[index]
 
             except KeyError:
                 logger.warning("did not find a task waiting for file connection with ticket : %d", ticket)
